@@ -111,6 +111,7 @@ func init() {
 	c("c07-eval-environ", "C07.eval", interp, "gojq.WithEnvironLoader(ni.OS.Environ)", "gojq.WithEnvironLoader(func() []string { return nil })", "option:WithEnvironLoader:source")
 	c("c07-eval-environ-impl", "C07.eval", "pkg/cli/cli.go", "func (*stdOS) Environ() []string { return os.Environ() }", "func (*stdOS) Environ() []string { return nil }", "environ:")
 	c("c07-eval-compile-opts", "C07.eval", interp, "gc, err := gojq.Compile(gq, compilerOpts...)", "gc, err := gojq.Compile(gq, funcCompilerOpts...)", "compile:options")
+	c("c07-eval-vars-skip-null", "C07.eval", interp, "\tfor k, v := range i.slurps() {\n\t\tvariableNames = append(", "\tfor k, v := range i.slurps() {\n\t\tif v == nil {\n\t\t\tcontinue\n\t\t}\n\t\tvariableNames = append(", "variables:all")
 	c("c07-eval-vars-two-loops", "C07.eval", interp, "\tfor k, v := range i.slurps() {\n\t\tvariableNames = append(variableNames, \"$\"+k)\n\t\tvariableValues = append(variableValues, v)\n\t}", "\tfor k := range i.slurps() {\n\t\tvariableNames = append(variableNames, \"$\"+k)\n\t}\n\tfor _, v := range i.slurps() {\n\t\tvariableValues = append(variableValues, v)\n\t}", "variables:paired")
 
 	// C07.tojson
